@@ -5,7 +5,7 @@
    Models: C04_Model.v (machine level: int64 arithmetic, nil dereference, the tiny code paths, the wide facade),
    LRUOps.v (ideal LRU: recency list + trim).  This file contains statements closed by `exact` only. *)
 From Coq Require Import ZArith List Lia Bool.
-Require Import LRU Shard LRUOps C04_Model C04_Refine C04_Wide C04_Theorems C04_Check C04_Burst.
+Require Import LRU Shard LRUOps C04_Model C04_Refine C04_Wide C04_Theorems C04_Check C04_Burst C04_Sia.
 Import ListNotations.
 Open Scope Z_scope.
 
@@ -148,6 +148,23 @@ Theorem c04_burst_writes_wf : forall v univ sizes progs, NoDup univ -> Forall (f
   wfW (all_writes v 0 univ sizes progs) univ.
 Proof. exact all_writes_wf. Qed.
 
+(* SetIfAbsent-only bursts: when the only writes are SetIfAbsent calls (values as the variant sees them, sizes in [0, smax])
+   and the capacity holds every key of the universe with the largest value, EVERY linearisation behaves as a
+   first-insert-wins map: every outcome is that map's, at quiescence every key holds the pair of its first SetIfAbsent,
+   nothing was evicted, Size = sum of the entries' sizes; and that map never replaces a present key.  Hence per key all
+   reads that followed a SetIfAbsent and the value at quiescence are one and the same (the monitor sia_ok). *)
+Theorem c04_sia_every_linearisation : forall v univ smax cap0 ops,
+  cap_dom cap0 -> 0 <= smax -> Z.of_nat (length univ) * smax <= cap0 ->
+  Forall op_dom ops -> Forall (sia_op v univ smax) ops ->
+  let c := fst (mrun v (new_lru cap0) ops) in
+  let m := fst (frun [] (map (norm v) ops)) in
+  snd (mrun v (new_lru cap0) ops) = map Some (snd (frun [] (map (norm v) ops))) /\
+  (forall k, option_map pairof (lookup k (lst c)) = assoc k m) /\
+  evs c = 0 /\ cap c = cap0 /\ size c = total (lst c) /\ size c <= cap0 /\ NoDup (keys_of c).
+Proof. exact sia_every_linearisation. Qed.
+Theorem c04_first_insert_is_never_replaced : forall ops m k p, assoc k m = Some p -> assoc k (fst (frun m ops)) = Some p.
+Proof. exact frun_stable. Qed.
+
 (* non-vacuity: the hypotheses are satisfiable and the operations do evict (sized, tiny, wide) *)
 Theorem c04_demo_sized :
   let ops := [Set_ 1 10 2; Set_ 2 20 2; Get 1; Set_ 3 30 2; Peek 1; Exist 2; SetAndGetRemoved 1 11 4; Set_ 4 40 9; Set_ 5 50 1; Set_ 6 60 1;
@@ -201,6 +218,8 @@ Print Assumptions c04_every_schedule.
 Print Assumptions c04_demo_schedule.
 Print Assumptions c04_burst_every_linearisation.
 Print Assumptions c04_burst_writes_wf.
+Print Assumptions c04_sia_every_linearisation.
+Print Assumptions c04_first_insert_is_never_replaced.
 Print Assumptions c04_demo_sized.
 Print Assumptions c04_demo_tiny.
 Print Assumptions c04_demo_wide.
